@@ -123,6 +123,21 @@ def cases(rng, tier):
     # … then through the codec alone
     for r in bcodec:
         out.append(dict(kind="codec", rec=r))
+    # corpus: the real Connector selection path, both roles, with records already waiting for the connection
+    # (written before the first connection / un-acked from the previous generation) and records written later
+    q2 = [["open", 0, 1, "c3a9"], ["data", 1, 1, "00010203"]]
+    out.append(dict(kind="sel", gens=[dict(lq=q2, fq=[], ll=[["close", 2, 1]], fl=[])], chunks=[10**6],
+                    turn_each_chunk=False, mseed=1))
+    out.append(dict(kind="sel", gens=[dict(lq=[], fq=q2, ll=[["ack", 1]], fl=[["close", 2, 1]])], chunks=[1],
+                    turn_each_chunk=True, mseed=2))
+    out.append(dict(kind="sel", gens=[dict(lq=[], fq=[], ll=q2, fl=[["ping", "01020304"]]),
+                                      dict(lq=q2 + [["data", 2, 1, "%%BIG%%%d" % (MAXP - 8)]], fq=[["open", 0, 3, ""]],
+                                           ll=[["close", 3, 1]], fl=[["data", 1, 3, "ff"]]),
+                                      dict(lq=[["close", 3, 1]], fq=[], ll=[], fl=[])],
+                    chunks=[5, 1000, 70000], turn_each_chunk=False, mseed=3))
+    out.append(dict(kind="sel", gens=[dict(lq=[], fq=[], ll=[], fl=[])], chunks=[3], turn_each_chunk=True, mseed=4))
+    for _ in range(8):
+        out.append(rand_sel_case(rng))
     # corpus: every size boundary of the Noise packet split, for sealing (real send_record vs model, and the
     # real decrypt_message must give the message back)
     for i in range(0, len(SIZES), 2):
@@ -158,6 +173,8 @@ def cases(rng, tier):
                                     mut="trunc", mseed=pos, pos=pos))
     for _ in range(30 * n):
         out.append(rand_framer_case(rng))
+    for _ in range(12 * n):
+        out.append(rand_sel_case(rng))
     for _ in range(60 * n):
         out.append(dict(kind="codec", rec=rand_rec(rng, wide=True)))
     for _ in range(40 * n):
@@ -270,6 +287,8 @@ def run_case(case):
         return run_conn(case)
     if k == "framer":
         return run_framer(case)
+    if k == "sel":
+        return run_sel(case)
     raise ValueError(k)
 
 
@@ -662,6 +681,219 @@ def run_framer(case):
     return Result(lines, ["ok"] + out, viol, tags)
 
 
+# ---------------------------------------------------------------------------
+# the selection path: two real Connectors (one per role) with real DilatedConnectionProtocols, joined by
+# in-memory pipes; the managers are stand-ins that, like Manager.connector_connection_made ->
+# Outbound.use_connection -> resumeProducing, write every queued (un-acked) record as soon as they are
+# given the connection.  `Connector.add_candidate -> consider -> (eventual turn) -> accept ->
+# select_and_stop_remaining` runs for real on both sides, for the first and for later generations.
+
+class _SelSide:
+    def __init__(self, role, clock, gen, queued):
+        from wormhole._dilation import connector as dco
+        from wormhole.eventual import EventualQueue
+        self.role = role
+        self.leader = role is LEADER
+        self.eq = EventualQueue(clock)
+        self.queued = queued                  # records waiting for a connection (specs already built)
+        self.got = []                         # manager.got_record calls
+        self.handed = []                      # every record given to this side's L2 connection, in order
+        self.wire = []                        # the bytes each of them produced (or an exception name)
+        self.conn = None                      # set by connector_connection_made
+        self.events = []                      # what the driver is asked to replay for this receiver
+        self.dead = None
+        self.lost = 0
+        self.mgr = mock.Mock()
+        alsoProvides(self.mgr, IDilationManager)
+        self.mgr.got_record = self.got.append
+        self.mgr.connector_connection_made = self._connection_made
+        self.connector = dco.Connector(b"k" * 32, None, self.mgr, clock, self.eq, True, None, None,
+                                       ("%016x" % (gen * 2 + (1 if self.leader else 0))), role)
+        self.p = self.connector.build_protocol(None, "desc")
+        self.t = FakeTransport()
+        self.p.transport = self.t
+        self.taken = 0                        # how many of t.written have been moved to the peer
+
+    def start(self):
+        self.p.connectionMade()
+        rec = self.p._record
+        orig = rec.send_record
+
+        def logged(r):
+            self.handed.append(r)
+            n0 = len(self.t.written)
+            try:
+                orig(r)
+                self.wire.append(b"".join(self.t.written[n0:]))
+            except Exception as e:
+                self.wire.append(type(e).__name__)
+                raise
+        rec.send_record = logged
+
+    def _connection_made(self, c):
+        self.conn = c
+        for r in self.queued:                 # Outbound.use_connection: re-send everything un-acked, at once
+            c.send_record(r)
+
+    def summary(self):
+        p, t = self.p, self.t
+        fr = p._record._framer
+        hs = frame(b"hs") in t.written
+        kcm = (not self.leader) and frame(b"\x00" + bytes([1]) * 16) in t.written
+        st = automat_state(p, 'm')
+        return (f"{automat_state(fr, 'm')} {automat_state(p._record, 'n')} {st} buf={len(fr._buffer)} "
+                f"hs={'true' if hs else 'false'} kcm={'true' if kcm else 'false'} cand={'false' if st == 'unselected' else 'true'} "
+                f"queued={len(p._inbound_record_queue)} mgr=[{'; '.join(show_rec(r) for r in self.got)}]")
+
+    def receive(self, chunk):
+        if self.dead:
+            return
+        lost_before = self.t.lost
+        try:
+            self.p.dataReceived(chunk)
+            if self.t.lost > lost_before:
+                self.dead = "Disconnect"
+        except Exception as e:               # Twisted drops a connection whose dataReceived raises
+            self.dead = type(e).__name__
+        self.events.append(("data", chunk, (self.dead + " " if self.dead else "") + self.summary()))
+
+    def turn(self):
+        before = automat_state(self.p, 'm')
+        self.eq.flush_sync()
+        if before != "selected" and automat_state(self.p, 'm') == "selected":
+            self.events.append(("select", None, self.summary()))
+
+
+def run_sel(case):
+    import random
+    from twisted.internet.task import Clock
+    from wormhole._dilation import connector as dco
+    rng = random.Random(case["mseed"])
+    lines, exp, viol, tags = [], [], [], ["sel:gens=%d" % len(case["gens"])]
+
+    def brief(rs):
+        return [x if len(x) <= 48 else x[:40] + f"…({len(x)} chars)" for x in rs[:6]]
+
+    def split(data):
+        out, i = [], 0
+        floor = len(data) // 150          # at most ~150 reads per burst, however small the chunk sizes
+        while i < len(data):
+            n = max(rng.choice(case["chunks"]), floor)
+            out.append(data[i:i + n])
+            i += n
+        return out
+
+    with mock.patch.object(dco, "build_noise", ToyNoise):
+        for gi, g in enumerate(case["gens"]):
+            clock = Clock()
+            sides = {}
+            for role, q in ((LEADER, g["lq"]), (FOLLOWER, g["fq"])):
+                sides[role] = _SelSide(role, clock, gi, [mk_rec(expand_rec(sp)) for sp in q])
+            L, F = sides[LEADER], sides[FOLLOWER]
+            L.start()
+            F.start()
+
+            def shuttle():
+                busy = True
+                while busy:
+                    busy = False
+                    for X, Y in ((L, F), (F, L)):
+                        data = b"".join(X.t.written[X.taken:])
+                        X.taken = len(X.t.written)
+                        if data:
+                            busy = True
+                            for c in split(data):
+                                Y.receive(c)
+                                if case["turn_each_chunk"]:
+                                    Y.turn()
+                    for X in (L, F):
+                        X.turn()
+                        if len(X.t.written) > X.taken:
+                            busy = True
+            shuttle()
+            # records written once the connection is in use
+            for X, later in ((L, g["ll"]), (F, g["fl"])):
+                for sp in later:
+                    if X.conn is not None and not X.dead:
+                        try:
+                            X.conn.send_record(mk_rec(expand_rec(sp)))
+                        except Exception:
+                            pass               # recorded in X.wire; judged below
+            shuttle()
+            if L.queued:
+                tags.append("sel:leader-backlog")
+            if F.queued:
+                tags.append("sel:follower-backlog")
+            # ---- model lines: each direction is one receiving connection fed by the sender's records
+            from wormhole._dilation.connector import PROLOGUE_LEADER, PROLOGUE_FOLLOWER
+            for X, Y in ((L, F), (F, L)):
+                inbound = PROLOGUE_LEADER if X.leader else PROLOGUE_FOLLOWER
+                lines.append(f"new 0 {1 if Y.leader else 0} {hx(inbound)}")
+                exp.append("ok")
+                for r, w in zip(X.handed, X.wire):
+                    lines.append("send " + show_rec(r))
+                    exp.append(hx(w) if isinstance(w, bytes) else w)
+                for kind, chunk, summ in Y.events:
+                    lines.append("select" if kind == "select" else "data " + hx(chunk))
+                    exp.append(summ)
+            # ---- oracle: every record handed to an L2 connection is recovered identically by the peer
+            for X, Y, xn, yn in ((L, F, "leader", "follower"), (F, L, "follower", "leader")):
+                want = [show_rec(mk_rec(expand_rec(sp))) for sp in (g["lq"] + g["ll"] if X.leader else g["fq"] + g["fl"])]
+                handed = [show_rec(r) for r in X.handed if not isinstance(r, KCM)]
+                gotp = [show_rec(r) for r in Y.got]
+                where = f"generation {gi + 1}, {xn}->{yn}"
+                if Y.dead or X.dead:
+                    viol.append(("lossless", f"{where}: honest peers, but the {yn if Y.dead else xn}'s connection died with "
+                                 f"{Y.dead or X.dead}; handed {brief(handed)} delivered {brief(gotp)}"))
+                elif X.conn is None:
+                    viol.append(("lossless", f"{where}: the {xn}'s connector never selected the connection"))
+                elif handed != want or any(not isinstance(w, bytes) for w in X.wire):
+                    viol.append(("lossless", f"{where}: records {brief(want)} could not all be handed to the connection: {brief(handed)}"))
+                elif gotp != handed:
+                    viol.append(("lossless", f"{where}: handed {brief(handed)} but the {yn}'s manager got {brief(gotp)}"))
+                elif [i for i, r in enumerate(X.handed) if isinstance(r, KCM)] != [0]:
+                    viol.append(("lossless", f"{where}: the {xn} did not confirm the connection with exactly one KCM, first: "
+                                 f"{brief([show_rec(r) for r in X.handed])}"))
+            # the connection is lost; managers would start the next generation
+            for X in (L, F):
+                try:
+                    X.p.connectionLost(None)
+                    X.eq.flush_sync()
+                except Exception:
+                    pass
+            if viol:
+                break
+    return Result(lines, exp, viol, tags)
+
+
+def rand_sel_case(rng):
+    seq = [0, 0]
+
+    def recs(side, n, big=False):
+        out = []
+        for _ in range(n):
+            k = rng.choice(["open", "data", "data", "close"])
+            sn = seq[side]
+            seq[side] += 1
+            scid = rng.choice([1, 2, 3, 2**32 - 1])
+            if k == "open":
+                out.append(["open", sn, scid, rng.choice(["", "70726f746f", "c3a9"])])
+            elif k == "data":
+                pay = "%%BIG%%%d" % (rng.choice(SIZES[3:9]) - 9) if big and rng.random() < 0.3 else \
+                    bytes(rng.randrange(256) for _ in range(rng.choice([0, 1, 5, 40]))).hex()
+                out.append(["data", sn, scid, pay])
+            else:
+                out.append(["close", sn, scid])
+        return out
+    gens = []
+    for gi in range(rng.choice([1, 2, 2, 3])):
+        gens.append(dict(lq=recs(0, rng.choice([0, 0, 1, 2, 4]), big=True), fq=recs(1, rng.choice([0, 0, 1, 3])),
+                         ll=recs(0, rng.choice([0, 1, 3])) + ([["ack", rng.choice(BOUND32)]] if rng.random() < 0.3 else []),
+                         fl=recs(1, rng.choice([0, 1, 2])) + ([["ping", "01020304"]] if rng.random() < 0.3 else [])))
+    return dict(kind="sel", gens=gens, chunks=rng.choice([[1], [10**6], [1, 2, 3, 7, 50], [5, 1000, 70000], [17]]),
+                turn_each_chunk=rng.random() < 0.5, mseed=rng.randrange(10**6))
+
+
 def search(rng, seconds, seeds):
     import time
     t0 = time.time()
@@ -675,6 +907,19 @@ def search(rng, seconds, seeds):
 
 
 def shrink(case):
+    if case.get("kind") == "sel":
+        gens = case["gens"]
+        for i in range(len(gens)):
+            if len(gens) > 1:
+                yield dict(case, gens=gens[:i] + gens[i + 1:])
+        for i, g in enumerate(gens):
+            for key in ("ll", "fl", "fq", "lq"):
+                for j in range(len(g[key])):
+                    g2 = dict(g)
+                    g2[key] = g[key][:j] + g[key][j + 1:]
+                    yield dict(case, gens=gens[:i] + [g2] + gens[i + 1:])
+        if case["chunks"] != [10**6]:
+            yield dict(case, chunks=[10**6])
     if case.get("kind") == "conn":
         recs = case["recs"]
         for i in range(len(recs)):
